@@ -73,6 +73,9 @@ def parse_case(line):
     orph = None       # the dropped FUNC whose sub-records are being read
     while i < len(t):
         k = t[i]
+        if k == "Y":       # text style of the rendering (CRLF / upper-case hex / leading zero): no record
+            i += 2
+            continue
         if k in ("F", "P", "U", "W"):
             orph = None
         if k == "Z":
@@ -880,6 +883,10 @@ class C11(PropBase):
             if rng.chance(1, 6):
                 items = self.extremes(rng, items)
                 kind += "+extreme_payloads"
+            if rng.chance(1, 5):
+                # the same records in another spelling: CRLF line ends (1), upper-case hex (2), a leading zero on hex fields (4)
+                items = [("Y", rng.range(1, 7))] + items
+                kind += "+text_style"
             extra = self.gen_modules(rng, mb, msize) if rng.chance(1, 2) else []
             if extra:
                 kind += "+modules"
